@@ -1,6 +1,16 @@
 //! Histories over the real aggregator: the operations (events the aggregator reacts to), their executor, what the
 //! harness observes after every step, and the invariants of C14 (certificates) and C16 (single-signature rows).
-//! C15 reuses [`Run`] (boot / apply / observe) and adds crash points.
+//!
+//! Building on this (C15):
+//! * `Run::boot(&cfg, tag, opts)` = world + first aggregator process + genesis certificate; `run.apply(&op)` executes
+//!   one [`Op`] and observes; `run.observe()` re-reads the database through the public services and checks the
+//!   invariants selected in [`RunOpts`]; `run.verdict()` = first violation `(key, what)`; `run.labels` = classes seen.
+//! * `run.node` is the running process (`sut::Node`: state machine, services, HTTP router, repositories,
+//!   `DependenciesBuilder`); `run.world` survives restarts (`world.start()` boots a new process on the same stores);
+//!   `run.restart()` = clean stop + start, `run.kill()` = the process dies where it stands (see its comment for the
+//!   runtime hand-over). `run.model` is the harness' own registration/key model (model.rs), `run.obs` everything seen.
+//! * case strategies: `op_strategy_c14(n)`, `sign_strategy_c14(n)`, c14::cfg_strategy(); one tokio runtime per case:
+//!   `sut::case_runtime()`.
 
 use std::collections::{BTreeMap, BTreeSet};
 use std::sync::Arc;
@@ -884,23 +894,31 @@ impl Run {
         };
         let known: BTreeSet<String> = self.obs.certs.iter().map(|c| c.hash.clone()).collect();
         let stored: BTreeMap<String, Certificate> = certs.iter().map(|c| (c.hash.clone(), c.clone())).collect();
-        // stored certificates never change or vanish
-        for c in self.obs.certs.clone().iter() {
+        // a certificate the harness saw earlier is gone or has another content: what is stored now must still verify
+        // (the statement speaks about every stored certificate, so re-verify all of them with a fresh verifier)
+        let mut disturbed = false;
+        for c in self.obs.certs.iter() {
             match stored.get(&c.hash) {
-                None => {
-                    let (h, e) = (c.hash.clone(), c.epoch);
-                    if self.violate("certificate-vanished", format!("certificate {h} (epoch {e}) is not stored any more")) {
-                        return;
-                    }
-                }
-                Some(now) if now != c => {
-                    let h = c.hash.clone();
-                    if self.violate("certificate-changed", format!("stored certificate {h} changed")) {
-                        return;
-                    }
-                }
+                None => disturbed = true,
+                Some(now) if now != c => disturbed = true,
                 _ => {}
             }
+        }
+        if disturbed {
+            self.label("stored-certificate-vanished-or-changed");
+            if self.opts.certificates {
+                let genesis_verifier = Arc::new(self.genesis_signer.create_verifier());
+                let verifier = MithrilCertificateVerifier::new(self.world.logger.clone(), Arc::new(MapRetriever(stored.clone())), genesis_verifier);
+                for c in certs.iter() {
+                    if let Err(e) = verifier.verify_certificate_chain(c.clone()).await {
+                        let what = format!("certificate {} (epoch {}) no longer verifies after stored certificates vanished or changed: {e:?}", c.hash, c.epoch);
+                        if self.violate("I1-chain-does-not-verify", what.chars().take(600).collect()) {
+                            return;
+                        }
+                    }
+                }
+            }
+            self.obs.certs.retain(|c| stored.get(&c.hash) == Some(c));
         }
         let new: Vec<Certificate> = certs.iter().filter(|c| !known.contains(&c.hash)).cloned().collect();
         if new.is_empty() {
@@ -1249,6 +1267,14 @@ impl Run {
                 }
             }
         }
+    }
+
+    /// C15: the process dies where it stands — no shutdown code runs. The caller then calls
+    /// `shutdown_background()` on the tokio runtime the node lived on (that kills its spawned tasks) and starts a
+    /// new node with `run.node = Some(run.world.start().await?)` on a fresh runtime; `Run`, `World` and `Model`
+    /// are not tied to a runtime.
+    pub fn kill(&mut self) {
+        drop(self.node.take());
     }
 
     pub async fn shutdown(mut self) {
